@@ -878,6 +878,10 @@ class FragmentSender(object):
 
     def callback(self, index, success):
 
+        if self.acks[index] is not None:
+            # this fragment was already resolved through another datagram
+            return
+
         if not success and self.retry != RetryMode.NONE:
             # resend the fragment that timed out: the complete fragment
             # including its header, using the same message sequence number
@@ -891,6 +895,13 @@ class FragmentSender(object):
             self.conn.outgoing_messages.append(msg)
         else:
             self.acks[index] = success
+
+            # once every fragment is resolved the message is resolved:
+            # notify the user exactly once
+            if all(ack is not None for ack in self.acks):
+                self.conn.pending_fragments.pop(self.frag_id, None)
+                if self.user_callback:
+                    self.user_callback(all(self.acks))
 
     @staticmethod
     def parsePayload(payload):
